@@ -772,3 +772,124 @@ pub fn check_putresult_laws(ctx: &Ctx, out: &mut Outcome) {
         }
     }
 }
+
+// ------------------------------------------------------------------------------ constructor contracts
+
+#[derive(Clone)]
+struct NopCb;
+impl caches::OnEvictCallback for NopCb {
+    fn on_evict<K, V>(&self, _: &K, _: &V) {}
+}
+
+/// C01: every constructor / builder path yields the configured capacities (exhaustive over a
+/// small grid incl. sizes above 65536 and every order of the hasher setters)
+pub fn check_ctor_caps(ctx: &Ctx, out: &mut Outcome) {
+    use caches::*;
+    let mut n_checked = 0u64;
+    let mut bad: Option<String> = None;
+    let mut note = |ok: bool, what: String, bad: &mut Option<String>| {
+        if !ok && bad.is_none() {
+            *bad = Some(what);
+        }
+    };
+    let hb = || caches::DefaultHashBuilder::default();
+    let r = std::panic::catch_unwind(std::panic::AssertUnwindSafe(|| {
+        for &n in &[1usize, 2, 3, 7, 100, 4096, 65535, 65536, 65537, 100_000, 1 << 20] {
+            n_checked += 4;
+            note(RawLRU::<u64, u64>::new(n).map(|c| c.cap()) == Ok(n), format!("RawLRU::new({n}).cap() != {n}"), &mut bad);
+            note(RawLRU::<u64, u64, DefaultEvictCallback, _>::with_hasher(n, hb()).map(|c| c.cap()) == Ok(n), format!("RawLRU::with_hasher({n}).cap() != {n}"), &mut bad);
+            note(RawLRU::<u64, u64, NopCb>::with_on_evict_cb(n, NopCb).map(|c| c.cap()) == Ok(n), format!("RawLRU::with_on_evict_cb({n}).cap() != {n}"), &mut bad);
+            note(RawLRU::<u64, u64, NopCb, _>::with_on_evict_cb_and_hasher(n, NopCb, hb()).map(|c| c.cap()) == Ok(n), format!("RawLRU::with_on_evict_cb_and_hasher({n}).cap() != {n}"), &mut bad);
+        }
+        for &(p, t) in &[(1usize, 1usize), (1, 5), (5, 1), (2, 3), (3, 2), (12, 3), (3, 12), (70_000, 3), (3, 70_000)] {
+            let want = (p + t, p, t);
+            let caps = |c: SegmentedCache<u64, u64, caches::DefaultHashBuilder, caches::DefaultHashBuilder>| (c.cap(), c.probationary_cap(), c.protected_cap());
+            n_checked += 4;
+            note(SegmentedCache::<u64, u64>::new(p, t).map(|c| (c.cap(), c.probationary_cap(), c.protected_cap())) == Ok(want), format!("SegmentedCache::new({p}, {t}) capacities != {:?}", want), &mut bad);
+            note(SegmentedCacheBuilder::new(p, t).set_probationary_hasher(hb()).set_protected_hasher(hb()).finalize::<u64, u64>().map(caps) == Ok(want), format!("SegmentedCacheBuilder({p}, {t}) + probationary,protected hashers: capacities != {:?}", want), &mut bad);
+            note(SegmentedCacheBuilder::new(p, t).set_protected_hasher(hb()).set_probationary_hasher(hb()).finalize::<u64, u64>().map(caps) == Ok(want), format!("SegmentedCacheBuilder({p}, {t}) + protected,probationary hashers: capacities != {:?}", want), &mut bad);
+            note(SegmentedCacheBuilder::default().set_protected_size(t).set_probationary_hasher(hb()).set_probationary_size(p).set_protected_hasher(hb()).finalize::<u64, u64>().map(caps) == Ok(want), format!("SegmentedCacheBuilder::default() + setters ({p}, {t}): capacities != {:?}", want), &mut bad);
+        }
+        for &n in &[1usize, 2, 3, 7, 100, 70_000] {
+            n_checked += 4;
+            note(AdaptiveCache::<u64, u64>::new(n).map(|c| c.cap()) == Ok(n), format!("AdaptiveCache::new({n}).cap() != {n}"), &mut bad);
+            note(
+                AdaptiveCacheBuilder::new(n).set_frequent_evict_hasher(hb()).set_recent_hasher(hb()).set_recent_evict_hasher(hb()).set_frequent_hasher(hb()).finalize::<u64, u64>().map(|c| c.cap()) == Ok(n),
+                format!("AdaptiveCacheBuilder({n}) + hashers: cap() != {n}"),
+                &mut bad,
+            );
+            note(TwoQueueCache::<u64, u64>::with_2q_parameters(n.max(2), 0.25, 0.5).map(|c| c.cap()) == Ok(n.max(2)), format!("TwoQueueCache::with_2q_parameters({n}): cap() != {n}"), &mut bad);
+            note(
+                TwoQueueCacheBuilder::new(n.max(2)).set_ghost_hasher(hb()).set_recent_hasher(hb()).set_frequent_hasher(hb()).finalize::<u64, u64>().map(|c| c.cap()) == Ok(n.max(2)),
+                format!("TwoQueueCacheBuilder({n}) + hashers: cap() != {n}"),
+                &mut bad,
+            );
+        }
+        for &(w, p, t) in &[(1usize, 1usize, 1usize), (1, 6, 3), (3, 1, 6), (6, 3, 1), (2, 70_000, 5)] {
+            let want = (w + p + t, w, p + t);
+            n_checked += 2;
+            note(WTinyLFUCache::<u64, u64>::with_sizes(w, p, t, 8).map(|c| (c.cap(), c.window_cache_cap(), c.main_cache_cap())).ok() == Some(want), format!("WTinyLFUCache::with_sizes({w}, {p}, {t}) capacities != {:?}", want), &mut bad);
+            let b: WTinyLFUCacheBuilder<u64> = WTinyLFUCacheBuilder::new(w, p, t, 8);
+            let r: Result<WTinyLFUCache<u64, u64, _, _, _, _>, _> = b.set_probationary_hasher(hb()).set_window_hasher(hb()).set_protected_hasher(hb()).finalize();
+            note(r.map(|c| (c.cap(), c.window_cache_cap(), c.main_cache_cap())).ok() == Some(want), format!("WTinyLFUCacheBuilder({w}, {p}, {t}) + hashers: capacities != {:?}", want), &mut bad);
+        }
+    }));
+    if r.is_err() && bad.is_none() {
+        bad = Some("a constructor panicked".to_string());
+    }
+    out.coverage.insert("constructor_capacity_contracts_checked".into(), json!(n_checked));
+    if let Some(msg) = bad {
+        let v = Violation { prop: "C01", step: 0, msg: format!("a freshly constructed cache does not report its configured capacity: {}", msg), sig: "ctor/-/capacity".into() };
+        if ctx.known.matches(&ctx.id, &v.sig).is_none() {
+            let path = write_replay(&ctx.replay_dir(), &ctx.id, "ctorcaps", json!({"grid": "constructor capacity contracts"}), &v);
+            out.violations.push((path, v.msg));
+        }
+    }
+}
+
+/// C08: quota == floor(size x recent ratio), ghost bound == floor(size x ghost ratio), for
+/// every size 1..=128 and every ratio q/size and k/100, through both construction paths
+pub fn check_2q_quota_grid(ctx: &Ctx, out: &mut Outcome) {
+    use caches::*;
+    let mut n_checked = 0u64;
+    let mut bad: Option<String> = None;
+    let r = std::panic::catch_unwind(std::panic::AssertUnwindSafe(|| {
+        for size in 1usize..=128 {
+            let mut ratios: Vec<f64> = (0..=size).map(|q| q as f64 / size as f64).collect();
+            ratios.extend((0..=100).map(|k| k as f64 / 100.0));
+            for (j, &rr) in ratios.iter().enumerate() {
+                // pair every recent ratio with a rotating ghost ratio (and vice versa)
+                let gr = ratios[(j * 7 + 3) % ratios.len()];
+                let (q, g) = ((size as f64 * rr).floor() as usize, (size as f64 * gr).floor() as usize);
+                let a = TwoQueueCache::<u64, u64>::with_2q_parameters(size, rr, gr);
+                let b = TwoQueueCacheBuilder::new(size).set_recent_ratio(rr).set_ghost_ratio(gr).set_ghost_hasher(caches::DefaultHashBuilder::default()).set_recent_hasher(caches::DefaultHashBuilder::default()).finalize::<u64, u64>();
+                n_checked += 2;
+                for (how, c) in [("with_2q_parameters", a.ok().map(|c| (c.verif_recent_quota(), c.verif_ghost().cap()))), ("builder", b.ok().map(|c| (c.verif_recent_quota(), c.verif_ghost().cap())))] {
+                    match c {
+                        Some((rq, rg)) => {
+                            if (rq, rg) != (q, g) && bad.is_none() {
+                                bad = Some(format!("{how}: size {size}, recent ratio {rr}, ghost ratio {gr}: quota {rq} / ghost bound {rg}, floor(size x ratio) = {q} / {g}"));
+                            }
+                        }
+                        None => {
+                            if g >= 1 && bad.is_none() {
+                                bad = Some(format!("{how}: size {size}, recent ratio {rr}, ghost ratio {gr} rejected although floor(size x ghost ratio) = {g}"));
+                            }
+                        }
+                    }
+                }
+            }
+        }
+    }));
+    if r.is_err() && bad.is_none() {
+        bad = Some("a constructor panicked".to_string());
+    }
+    out.coverage.insert("quota_grid_constructions".into(), json!(n_checked));
+    if let Some(msg) = bad {
+        let v = Violation { prop: "C08", step: 0, msg: format!("quota / ghost bound is not floor(size x ratio): {}", msg), sig: "ctor/-/quota".into() };
+        if ctx.known.matches(&ctx.id, &v.sig).is_none() {
+            let path = write_replay(&ctx.replay_dir(), &ctx.id, "quotagrid", json!({"grid": "size 1..=128 x ratios q/size, k/100"}), &v);
+            out.violations.push((path, v.msg));
+        }
+    }
+}
